@@ -68,8 +68,10 @@ def spec_mutators(cr):
                     allm.add(f.path)
                     changed = True
                     break
-    # the functions the caller uses to *state* the specification are not mutations of it in the sense of the contract
-    return {m for m in allm if m.rsplit('::', 1)[1] not in ('set_default_successor', 'add_transition', 'new')}
+    # the functions the caller uses to *state* the specification are not mutations of it in the sense of the contract;
+    # a helper introduced after the reference tree is looked into (it is inlined), not treated as one opaque mutation
+    from ..inventory import KNOWN
+    return {m for m in allm if m.rsplit('::', 1)[1] not in ('set_default_successor', 'add_transition', 'new') and m in KNOWN}
 
 
 def run(ctx):
